@@ -15,7 +15,7 @@ BOUNDS = 'initial capacity 2/4, maximum 4/6/8/12/16 (power-of-two and not), 4-7 
 OUTSIDE = 'allocation failure, huge pages, capacities near 2^63 (capacity*2 overflow), runs longer than the bound'
 ASSUMPTIONS = ['mmap/munmap and pointer alignment in _alloc_aligned/_free_aligned replaced by malloc/free of the requested size', 'QUILL_THROW is a fatal error in this (no-exceptions) build; it is asserted to happen exactly for records larger than the maximum']
 MANIFEST = {
- 'text': 'Bounded model checking of the real UnboundedSPSCQueue (constructor, prepare_write/_handle_full_queue, shrink, prepare_read/_read_next_queue, finish/commit, Node and BoundedSPSCQueue constructors/destructors) with producer and consumer sequentialised under the release/acquire memory-model shim; record sizes, shrink targets, schedule and stale-load choices are solver variables.',
+ 'text': 'Bounded model checking of the real UnboundedSPSCQueue (constructor, prepare_write/_handle_full_queue, shrink, prepare_read/_read_next_queue, finish/commit, Node and BoundedSPSCQueue constructors/destructors) with producer and consumer sequentialised under the release/acquire memory-model shim; record sizes, shrink targets, schedule and stale-load choices are solver variables. In the sequentially consistent queries the consumer-side emptiness predicate empty() is checked at every consumer step against the ghost record stream: never true while a committed record is unread, in whichever node it lives.',
  'note': 'Bounds: concrete (initial,max) capacity pairs, <= 7 steps. Memory model as C01. mmap/munmap modelled by malloc/free. Trusted: clang IR, translator (validated each run), CBMC, kissat.',
  'technique': 'CBMC/SAT over C translated from clang IR of the real unbounded queue + release/acquire shim + CBMC heap checks; native replay',
 }
